@@ -67,8 +67,9 @@ Section Matrix.
     end.
   Definition full (n m : nat) : matrix := mkM n m (zeros_list (n * m)) SFull.
   Definition zeros (n m : nat) : matrix := mkM n m (zeros_list (n * m)) SFull.
-  (* Matrix::square as written: Vec::with_capacity -- an EMPTY backing store *)
-  Definition square (n : nat) : matrix := mkM n n [] SFull.
+  (* Matrix::square (after "fix: Matrix::square allocates its n*n zero entries";
+     the pinned tree had Vec::with_capacity, i.e. an empty backing store: finding F11) *)
+  Definition square (n : nat) : matrix := mkM n n (zeros_list (n * n)) SFull.
   Definition banded (n ml mu : nat) : matrix := mkM n n (zeros_list ((ml + mu + 1) * n)) (SBanded ml mu).
   Definition diagonal (d : list F) : matrix := mkM (length d) (length d) d (SBanded 0 0).
   Definition lower_triangular (n : nat) : matrix := banded n (n - 1) 0.
